@@ -62,13 +62,48 @@ type interpreter struct {
 	violations []violation
 	sch        *schedState
 	extCache   map[*ssa.Function]externalFn
+	fnSize     map[*ssa.Function]int
 	side       *sideState
 	world      *world
 	pkgs       []*ssa.Package
 	initOrder  []*ssa.Package
 	frozen     map[*value]string
 	allocLimit value // nil or int/sym: limit for guarded allocations
+	allocLabel string
 	funcsRun   map[*ssa.Function]int
+
+	// undo log: mutations after the post-initialisation snapshot
+	logging  bool
+	epoch    int
+	undo     []undoRec
+	undoFns  []func()
+	snapSide *sideState
+	initDone bool
+}
+
+type undoRec struct {
+	addr *value
+	old  value
+}
+
+// setCell is the single funnel for writes to existing heap cells.
+func (i *interpreter) setCell(addr *value, v value) {
+	if i.logging {
+		i.undo = append(i.undo, undoRec{addr, *addr})
+	}
+	*addr = v
+}
+
+// rollback restores the heap to the post-initialisation snapshot.
+func (i *interpreter) rollback() {
+	for k := len(i.undo) - 1; k >= 0; k-- {
+		*i.undo[k].addr = i.undo[k].old
+	}
+	i.undo = i.undo[:0]
+	for k := len(i.undoFns) - 1; k >= 0; k-- {
+		i.undoFns[k]()
+	}
+	i.undoFns = i.undoFns[:0]
 }
 
 type deferred struct {
@@ -280,7 +315,7 @@ func visitInstr(fr *frame, instr ssa.Instruction) continuation {
 		i.goStmt(fr, instr.Pos(), fn, args)
 
 	case *ssa.MakeChan:
-		fr.env[instr] = &vchan{cap: int(i.concretize(fr.get(instr.Size), "makechan")), elem: instr.Type().Underlying().(*types.Chan).Elem()}
+		fr.env[instr] = &vchan{cap: int(i.concretize(fr.get(instr.Size), "makechan")), elem: instr.Type().Underlying().(*types.Chan).Elem(), epoch: i.epoch}
 
 	case *ssa.Alloc:
 		var addr *value
@@ -311,7 +346,7 @@ func visitInstr(fr *frame, instr ssa.Instruction) continuation {
 		fr.env[instr] = slice[:l]
 
 	case *ssa.MakeMap:
-		fr.env[instr] = newOmap()
+		fr.env[instr] = i.newOmap()
 
 	case *ssa.Range:
 		fr.env[instr] = i.rangeIter(fr.get(instr.X), instr.X.Type())
@@ -556,7 +591,10 @@ func callSSA(i *interpreter, caller *frame, callpos token.Pos, fn *ssa.Function,
 		i.extCache[fn] = ext
 	}
 	if ext != nil {
-		return ext(fr, args)
+		r := ext(fr, args)
+		if _, ft := r.(fallThroughT); !ft {
+			return r
+		}
 	}
 	if fn.Blocks == nil {
 		panic(unsupported("no code for function: " + fn.String()))
@@ -568,7 +606,19 @@ func callSSA(i *interpreter, caller *frame, callpos token.Pos, fn *ssa.Function,
 		i.funcsRun[fn]++
 	}
 
-	fr.env = make(map[ssa.Value]value)
+	nv, ok := i.fnSize[fn]
+	if !ok {
+		nv = len(fn.Params) + len(fn.FreeVars) + len(fn.Locals)
+		for _, b := range fn.Blocks {
+			for _, ins := range b.Instrs {
+				if _, isV := ins.(ssa.Value); isV {
+					nv++
+				}
+			}
+		}
+		i.fnSize[fn] = nv
+	}
+	fr.env = make(map[ssa.Value]value, nv)
 	fr.block = fn.Blocks[0]
 	fr.locals = make([]value, len(fn.Locals))
 	for k, l := range fn.Locals {
